@@ -14,10 +14,12 @@ import (
 	"golang.org/x/text/language"
 	"seehuhn.de/go/postscript/funit"
 	"seehuhn.de/go/sfnt/glyph"
+	"seehuhn.de/go/sfnt/opentype/anchor"
 	"seehuhn.de/go/sfnt/opentype/classdef"
 	"seehuhn.de/go/sfnt/opentype/coverage"
 	"seehuhn.de/go/sfnt/opentype/gdef"
 	"seehuhn.de/go/sfnt/opentype/gtab"
+	"seehuhn.de/go/sfnt/opentype/markarray"
 )
 
 // ---------------------------------------------------------------- case structure
@@ -136,6 +138,38 @@ func (e *shpEnc) optvr(v *gtab.GposValueRecord) {
 		e.n(1)
 	} else {
 		e.n(0)
+	}
+}
+
+func (e *shpEnc) pairAdj(p *gtab.PairAdjust) {
+	if p == nil {
+		e.n(0)
+		return
+	}
+	e.n(1)
+	e.optvr(p.First)
+	e.optvr(p.Second)
+}
+
+func (e *shpEnc) anchor(a anchor.Table) {
+	e.n(int(a.X) + 32768)
+	e.n(int(a.Y) + 32768)
+}
+
+func (e *shpEnc) markArrays(cov1, cov2 coverage.Table, marks []markarray.Record, rows [][]anchor.Table) {
+	e.cov(cov1)
+	e.cov(cov2)
+	e.n(len(marks))
+	for _, m := range marks {
+		e.n(int(m.Class))
+		e.anchor(m.Table)
+	}
+	e.n(len(rows))
+	for _, row := range rows {
+		e.n(len(row))
+		for _, a := range row {
+			e.anchor(a)
+		}
 	}
 }
 
@@ -273,8 +307,52 @@ func (e *shpEnc) subtable(s gtab.Subtable) {
 		for _, v := range s.Adjust {
 			e.optvr(v)
 		}
+	case gtab.Gpos2_1:
+		e.n(103)
+		keys := make([]glyph.Pair, 0, len(s))
+		for k := range s {
+			keys = append(keys, k)
+		}
+		sort.Slice(keys, func(i, j int) bool {
+			if keys[i].Left != keys[j].Left {
+				return keys[i].Left < keys[j].Left
+			}
+			return keys[i].Right < keys[j].Right
+		})
+		e.n(len(keys))
+		for _, k := range keys {
+			e.n(int(k.Left))
+			e.n(int(k.Right))
+			e.pairAdj(s[k])
+		}
+	case *gtab.Gpos2_2:
+		e.n(104)
+		e.gset(s.Cov)
+		e.cd(s.Class1)
+		e.cd(s.Class2)
+		e.n(len(s.Adjust))
+		for _, row := range s.Adjust {
+			e.n(len(row))
+			for _, p := range row {
+				e.pairAdj(p)
+			}
+		}
+	case *gtab.Gpos3_1:
+		e.n(105)
+		e.cov(s.Cov)
+		e.n(len(s.Records))
+		for _, r := range s.Records {
+			e.anchor(r.Entry)
+			e.anchor(r.Exit)
+		}
+	case *gtab.Gpos4_1:
+		e.n(106)
+		e.markArrays(s.MarkCov, s.BaseCov, s.MarkArray, s.BaseArray)
+	case *gtab.Gpos6_1:
+		e.n(107)
+		e.markArrays(s.Mark1Cov, s.Mark2Cov, s.Mark1Array, s.Mark2Array)
 	default:
-		e.ok = false // a subtable type the engine model does not cover yet
+		e.ok = false // a subtable type the engine model does not cover (GPOS 5.1)
 	}
 }
 
@@ -452,6 +530,40 @@ func (d *shpDec) optvr() *gtab.GposValueRecord {
 	return v
 }
 
+func (d *shpDec) pairAdj() *gtab.PairAdjust {
+	if d.n() == 0 {
+		return nil
+	}
+	p := &gtab.PairAdjust{}
+	p.First = d.optvr()
+	p.Second = d.optvr()
+	return p
+}
+
+func (d *shpDec) anchor() anchor.Table {
+	x := d.n() - 32768
+	y := d.n() - 32768
+	return anchor.Table{X: funit.Int16(x), Y: funit.Int16(y)}
+}
+
+func (d *shpDec) markArrays() (cov1, cov2 coverage.Table, marks []markarray.Record, rows [][]anchor.Table) {
+	cov1 = d.cov()
+	cov2 = d.cov()
+	marks = make([]markarray.Record, d.count())
+	for i := range marks {
+		marks[i].Class = uint16(d.n())
+		marks[i].Table = d.anchor()
+	}
+	rows = make([][]anchor.Table, d.count())
+	for i := range rows {
+		rows[i] = make([]anchor.Table, d.count())
+		for j := range rows[i] {
+			rows[i][j] = d.anchor()
+		}
+	}
+	return
+}
+
 func (d *shpDec) subtable() gtab.Subtable {
 	switch tag := d.n(); tag {
 	case 11:
@@ -604,6 +716,45 @@ func (d *shpDec) subtable() gtab.Subtable {
 		for i := range s.Adjust {
 			s.Adjust[i] = d.optvr()
 		}
+		return s
+	case 103:
+		s := gtab.Gpos2_1{}
+		n := d.count()
+		for i := 0; i < n; i++ {
+			l := d.n()
+			r := d.n()
+			s[glyph.Pair{Left: glyph.ID(l), Right: glyph.ID(r)}] = d.pairAdj()
+		}
+		return s
+	case 104:
+		s := &gtab.Gpos2_2{}
+		s.Cov = d.gset()
+		s.Class1 = d.cd()
+		s.Class2 = d.cd()
+		s.Adjust = make([][]*gtab.PairAdjust, d.count())
+		for i := range s.Adjust {
+			s.Adjust[i] = make([]*gtab.PairAdjust, d.count())
+			for j := range s.Adjust[i] {
+				s.Adjust[i][j] = d.pairAdj()
+			}
+		}
+		return s
+	case 105:
+		s := &gtab.Gpos3_1{}
+		s.Cov = d.cov()
+		s.Records = make([]gtab.EntryExitRecord, d.count())
+		for i := range s.Records {
+			s.Records[i].Entry = d.anchor()
+			s.Records[i].Exit = d.anchor()
+		}
+		return s
+	case 106:
+		s := &gtab.Gpos4_1{}
+		s.MarkCov, s.BaseCov, s.MarkArray, s.BaseArray = d.markArrays()
+		return s
+	case 107:
+		s := &gtab.Gpos6_1{}
+		s.Mark1Cov, s.Mark2Cov, s.Mark1Array, s.Mark2Array = d.markArrays()
 		return s
 	default:
 		panic(fmt.Sprintf("shape: unknown subtable tag %d", tag))
@@ -775,6 +926,10 @@ func shpValueOk(v *gtab.GposValueRecord) bool {
 	return v == nil || !(v.YAdvance != 0 || v.XPlacementDevOffs != 0 || v.YPlacementDevOffs != 0 || v.XAdvanceDevOffs != 0 || v.YAdvanceDevOffs != 0)
 }
 
+func shpPairOk(p *gtab.PairAdjust) bool {
+	return p != nil && shpValueOk(p.First) && shpValueOk(p.Second)
+}
+
 func shpGuardedSimple(ll gtab.LookupList) (guarded, simple bool) {
 	guarded, simple = true, true
 	for _, l := range ll {
@@ -808,6 +963,22 @@ func shpGuardedSimple(ll gtab.LookupList) (guarded, simple bool) {
 				for _, v := range s.Adjust {
 					guarded = guarded && shpValueOk(v)
 				}
+			case gtab.Gpos2_1:
+				for _, p := range s {
+					guarded = guarded && shpPairOk(p)
+				}
+			case *gtab.Gpos2_2:
+				for _, row := range s.Adjust {
+					for _, p := range row {
+						guarded = guarded && shpPairOk(p)
+					}
+				}
+			case *gtab.Gpos3_1:
+				guarded = guarded && shpCovBelow(s.Cov, len(s.Records))
+			case *gtab.Gpos4_1:
+				guarded = guarded && shpCovBelow(s.MarkCov, len(s.MarkArray)) && shpCovBelow(s.BaseCov, len(s.BaseArray))
+			case *gtab.Gpos6_1:
+				guarded = guarded && shpCovBelow(s.Mark1Cov, len(s.Mark1Array)) && shpCovBelow(s.Mark2Cov, len(s.Mark2Array))
 			}
 		}
 	}
@@ -888,6 +1059,7 @@ type shpGen struct {
 	nll    int  // number of lookups being generated
 	nsets  int  // number of mark glyph sets in the GDEF table of the case
 	reader bool // the lookup list will be encoded and read back
+	gpos   bool // the lookup list is a GPOS list: sequences carry advances and offsets
 }
 
 func (g *shpGen) gid() glyph.ID {
@@ -1046,6 +1218,48 @@ func (g *shpGen) valueRec() *gtab.GposValueRecord {
 	return v
 }
 
+func (g *shpGen) anchor() anchor.Table {
+	r := g.r
+	if r.Chance(1, 8) {
+		return anchor.Table{} // the empty anchor
+	}
+	a := anchor.Table{X: funit.Int16(r.Range(-300, 300)), Y: funit.Int16(r.Range(-300, 300))}
+	if r.Chance(1, 25) {
+		a.X = funit.Int16(Pick(r, []int{32767, -32768}))
+	}
+	return a
+}
+
+func (g *shpGen) pairAdj() *gtab.PairAdjust {
+	if g.wild && g.r.Chance(1, 8) {
+		return nil // a nil *PairAdjust (API-built only)
+	}
+	p := &gtab.PairAdjust{First: g.valueRec()}
+	if g.r.Chance(1, 2) {
+		p.Second = g.valueRec()
+	}
+	return p
+}
+
+// markCovTable: a coverage table of mark glyphs
+func (g *shpGen) markCovTable(k int) coverage.Table {
+	c := coverage.Table{}
+	var keys []glyph.ID
+	for x := shpMark0; x <= shpMarkN && len(keys) < k; x++ {
+		if g.r.Chance(2, 3) || shpMarkN-x < k-len(keys) {
+			keys = append(keys, glyph.ID(x))
+		}
+	}
+	for i, x := range keys {
+		c[x] = i
+	}
+	if g.wild && len(c) > 0 && g.r.Chance(1, 4) {
+		c[keys[0]] = Pick(g.r, []int{len(c), 65535})
+		g.c.Stat("obligation", "coverage index = len / 65535")
+	}
+	return c
+}
+
 // subtable draws one subtable of the given kind.
 func (g *shpGen) subtable(kind int) (gtab.Subtable, uint16) {
 	r := g.r
@@ -1179,13 +1393,65 @@ func (g *shpGen) subtable(kind int) (gtab.Subtable, uint16) {
 			s.Adjust = append(s.Adjust, g.valueRec())
 		}
 		return s, 1
+	case 103:
+		s := gtab.Gpos2_1{}
+		for i, n := 0, r.Range(1, 6); i < n; i++ {
+			s[glyph.Pair{Left: g.baseGid(), Right: g.gid()}] = g.pairAdj()
+		}
+		return s, 2
+	case 104:
+		s := &gtab.Gpos2_2{Cov: g.covSet(), Class1: g.classDef(), Class2: g.classDef()}
+		n1, n2 := r.Range(1, 4), r.Range(1, 4)
+		for i := 0; i < n1; i++ {
+			var row []*gtab.PairAdjust
+			for j := 0; j < n2; j++ {
+				row = append(row, g.pairAdj())
+			}
+			s.Adjust = append(s.Adjust, row)
+		}
+		return s, 2
+	case 105:
+		k := r.Range(1, 4)
+		s := &gtab.Gpos3_1{Cov: g.covTable(k)}
+		for i := 0; i < k; i++ {
+			s.Records = append(s.Records, gtab.EntryExitRecord{Entry: g.anchor(), Exit: g.anchor()})
+		}
+		return s, 3
+	case 106, 107:
+		nm, nb := r.Range(1, 3), r.Range(1, 3)
+		classes := r.Range(1, 3)
+		saveWild := g.wild
+		markCov := g.markCovTable(nm)
+		baseCov := g.covTable(nb)
+		g.wild = saveWild
+		var marks []markarray.Record
+		for i := 0; i < nm; i++ {
+			cls := r.Intn(classes)
+			if r.Chance(1, 8) {
+				cls = Pick(r, []int{classes, classes + 1, 65535}) // mark class = len, 65535 (#15): the reader delivers it
+				g.c.Stat("obligation", "mark class index = len / 65535")
+			}
+			marks = append(marks, markarray.Record{Class: uint16(cls), Table: g.anchor()})
+		}
+		var rows [][]anchor.Table
+		for i := 0; i < nb; i++ {
+			var row []anchor.Table
+			for j := 0; j < classes; j++ {
+				row = append(row, g.anchor())
+			}
+			rows = append(rows, row)
+		}
+		if kind == 106 {
+			return &gtab.Gpos4_1{MarkCov: markCov, BaseCov: baseCov, MarkArray: marks, BaseArray: rows}, 4
+		}
+		return &gtab.Gpos6_1{Mark1Cov: markCov, Mark2Cov: baseCov, Mark1Array: marks, Mark2Array: rows}, 6
 	}
 	panic("unknown kind")
 }
 
 var shpGsubKinds = []int{11, 12, 21, 31, 41, 41, 81, 51, 52, 53, 61, 62, 63}
 var shpSimpleKinds = []int{11, 12, 21, 31, 41, 41, 81}
-var shpGposKinds = []int{101, 102, 51, 53, 61, 63}
+var shpGposKinds = []int{101, 102, 103, 104, 105, 106, 106, 107, 107, 51, 53, 61, 63}
 
 func (g *shpGen) flags(ngdefSets int) (gtab.LookupFlags, uint16) {
 	r := g.r
@@ -1298,9 +1564,11 @@ func (g *shpGen) lookupList(kinds []int) gtab.LookupList {
 				k = Pick(r, []int{61, 62, 63})
 			case kind == 101 || kind == 102:
 				k = Pick(r, []int{101, 102})
+			case kind == 103 || kind == 104:
+				k = Pick(r, []int{103, 104})
 			}
 			st, tp := g.subtable(k)
-			if kinds[0] == 101 && tp >= 5 {
+			if kinds[0] == 101 && k >= 51 && k <= 63 {
 				tp += 2 // GPOS numbering of the contextual types
 			}
 			l.Meta.LookupType = tp
@@ -1361,6 +1629,16 @@ func (g *shpGen) sequence(maxLen int) []glyph.Info {
 		for j, k := 0, Pick(r, []int{1, 1, 1, 1, 0, 2}); j < k; j++ {
 			s[i].Text = append(s[i].Text, next)
 			next++
+		}
+		if g.gpos && r.Chance(4, 5) {
+			s[i].Advance = funit.Int16(r.Range(0, 1000))
+			if r.Chance(1, 30) {
+				s[i].Advance = funit.Int16(Pick(r, []int{32767, -32768, 30000}))
+			}
+			if r.Chance(1, 6) {
+				s[i].XOffset = funit.Int16(r.Range(-100, 100))
+				s[i].YOffset = funit.Int16(r.Range(-100, 100))
+			}
 		}
 	}
 	return s
@@ -1555,7 +1833,7 @@ func (g *shpGen) viaReader(ll gtab.LookupList, tp gtab.Type, mutate bool) (out g
 	}
 	data := info.Encode()
 	if mutate {
-		for i, n := 0, g.r.Range(1, 4); i < n && len(data) > 10; i++ {
+		for i, n := 0, Pick(g.r, []int{1, 1, 2, 3}); i < n && len(data) > 10; i++ {
 			p := g.r.Range(10, len(data)-1)
 			switch g.r.Intn(3) {
 			case 0:
@@ -1584,6 +1862,7 @@ func areaShape(c *Ctx) {
 	r := c.Rng
 	for c.evals < c.N && timeouts < maxTimeouts {
 		g.wild = false
+		g.gpos = false
 		sc := &shpCase{}
 		origin := ""
 		gd, gdNil := g.gdef()
@@ -1598,8 +1877,9 @@ func areaShape(c *Ctx) {
 		case x < 6: // through the binary reader, valid or mutated bytes
 			kinds := shpGsubKinds
 			tp := gtab.Type(gtab.TypeGsub)
-			if r.Chance(1, 5) {
+			if r.Chance(1, 4) {
 				kinds, tp = shpGposKinds, gtab.TypeGpos
+				g.gpos = true
 			}
 			g.reader = true
 			ll := g.lookupList(kinds)
@@ -1618,8 +1898,9 @@ func areaShape(c *Ctx) {
 			kinds := shpGsubKinds
 			if r.Chance(1, 3) {
 				kinds = shpSimpleKinds
-			} else if r.Chance(1, 6) {
+			} else if r.Chance(1, 4) {
 				kinds = shpGposKinds
+				g.gpos = true
 			}
 			sc.ll = g.lookupList(kinds)
 			origin = "API-built"
